@@ -137,6 +137,15 @@ def generate(tier, rng):
             yield {'suite': NAME, 'passthrough': pt, 'ops': [{'op': 'add', 'ep': EPS[0], 'm': 'm1', 'patch': patch('result', 1, id='cfg')},
                                                             {'op': 'add', 'ep': EPS[0], 'm': 'm1', 'patch': patch('error', 2, id='cfg')},
                                                             request(EPS[0], batch), request(EPS[0], call('m1', 3))]}
+    # replace(idx) addresses the live queue position, also after the queue has rotated
+    for n_patches in (2, 3):
+        for k_calls in range(0, 4):
+            for idx in range(n_patches):
+                ops = [{'op': 'add', 'ep': EPS[0], 'm': 'm1', 'patch': patch(('result', 'error', 'callback')[i], i)} for i in range(n_patches)]
+                ops += [request(EPS[0], call('m1', i, [i])) for i in range(k_calls)]
+                ops.append({'op': 'replace', 'ep': EPS[0], 'm': 'm1', 'idx': str(idx), 'patch': patch('result', 77)})
+                ops += [request(EPS[0], call('m1', 10 + i)) for i in range(n_patches + 1)]
+                yield {'suite': NAME, 'passthrough': False, 'ops': ops}
     n = 20000 if thorough else 2500
     for i in range(n):
         length = rng.choice([2, 3, 4, 4, 5, 6] if not thorough else [3, 4, 5, 6, 6, 8, 10])
